@@ -480,6 +480,7 @@ def run(ctx: Ctx) -> None:
     at_end = {"masked": 0, "full": 0, "other": 0}
     drift_steps = 0
     undecided_runs: dict[str, int] = {}
+    sv_refuses_xy = 0
     margins = 0.0
     for (sc, spec, kk), res in zip(cases, results):
         if "invalid" in res:
@@ -522,7 +523,10 @@ def run(ctx: Ctx) -> None:
                                   {"scenario": pub, "t": t, "got": got, "expected_symbolic": {f"{p[0]},{p[1]}": list(v) for p, v in exp.items()}, "reference_register_matrix": res["U"]})
         # ---- steps
         if "raises" in res:
-            undecided_runs[res["raises"][:80]] = undecided_runs.get(res["raises"][:80], 0) + 1
+            if sc["htype"] == "xy" and sc["backend"] == "sv" and res["raises"].startswith("NotImplementedError"):
+                sv_refuses_xy += 1      # emu-sv does not emulate XY sequences (C04): only the direct queries apply
+            else:
+                undecided_runs[res["raises"][:80]] = undecided_runs.get(res["raises"][:80], 0) + 1
             continue
         steps = res["steps"]
         if len(steps) != len(T_TICKS) - 1:
@@ -560,7 +564,7 @@ def run(ctx: Ctx) -> None:
             ctx.traces_validated += 1
     ctx.coverage["binding"] = {"scenarios": len(cases) - n_invalid, "direct_queries": n_direct, "steps_checked": n_steps, "not_realisable": n_invalid,
                                "direct_query_exactly_at_slm_end_returns": at_end, "step_sequences_differing_from_model": drift_steps,
-                               "runs_raising_undecided": undecided_runs}
+                               "runs_raising_undecided": undecided_runs, "xy_scenarios_refused_by_emu_sv": sv_refuses_xy}
     if undecided_runs:
         ctx.notes.append(f"runs that raise (their steps are not decided here): {undecided_runs}")
     ctx.log(f"binding: {ctx.coverage['binding']}")
